@@ -1,5 +1,7 @@
 CFG = {
     "jobs": lambda tier: [
+        J("scaled", "witness --only C06"),
+        J("prod", "witness --only C06"),
         J("prod", "c06", imports="Base Stream Inst Run RunC06", shard=24, timeout=3000),
         J("scaled", "c06", imports="Base Stream Inst Run RunC06", shard=6, timeout=3000),
     ],
@@ -7,7 +9,9 @@ CFG = {
     "rule": "(a) library -> independent decoder: generated writing plans (1-4 files, 0-7 interleaved pieces of boundary sizes, 4 layer combinations, "
             "levels {0,1,5,9,11}, 1-3 recipients, any recipient's key), production constants (incl. sizes crossing 128 KiB chunk edges and one 4 MiB block "
             "edge) and scaled constants (CHUNK 64, BLOCK 256); (b) independent encoder -> library on the same plan distribution (random ephemeral scalar, key, "
-            "nonce, footer order, brotli quality), plus archives with zero-length FileContent blocks; (c) samples/archive_v1.mla; (d) AES-GCM core: EVERY split "
+            "nonce, footer order, brotli quality), plus archives with zero-length FileContent blocks (all layer combinations, and crafted layer-less ones - empty blocks "
+            "first, last, in a row, alone in a run between blocks of other files, in files with nothing else, 40 in a row - whose whole reading history, single "
+            "reads / read to end / linear extraction, is compared with the reader model, hist_plain); (c) samples/archive_v1.mla; (d) AES-GCM core: EVERY split "
             "into two pieces of messages of length 0..40 (quick: lengths divisible by 3 and 15-17, 31-33; thorough: all) and random multi-piece splits with empty "
             "pieces, fresh random key/nonce/aad per length; model comparison: scaled archives below 2600 bytes through Format.decode (brotli as a table, X25519 "
             "in Coq for the first encrypted ones, as an oracle input otherwise), a sample of the splits through the Gcm.v model; non-trivial = at least one "
